@@ -93,12 +93,15 @@ func StringToAmount(s string) (massutil.Amount, error) {
 	if i < 0 || uint64(i) > consensus.MaxMass {
 		return massutil.ZeroAmount(), fmt.Errorf("integral part is out of range")
 	}
+	if !isDecimalDigits(sInt) {
+		return massutil.ZeroAmount(), fmt.Errorf("illegal number format")
+	}
 
 	f, err := strconv.ParseInt(sFrac, 10, 64)
 	if err != nil {
 		return massutil.ZeroAmount(), err
 	}
-	if f < 0 {
+	if f < 0 || !isDecimalDigits(sFrac) {
 		return massutil.ZeroAmount(), fmt.Errorf("illegal number format")
 	}
 
@@ -116,6 +119,16 @@ func StringToAmount(s string) (massutil.Amount, error) {
 		return massutil.ZeroAmount(), err
 	}
 	return total, nil
+}
+
+// isDecimalDigits reports whether s consists of ASCII digits only (strconv.ParseInt also accepts a sign).
+func isDecimalDigits(s string) bool {
+	for i := 0; i < len(s); i++ {
+		if s[i] < '0' || s[i] > '9' {
+			return false
+		}
+	}
+	return true
 }
 
 func checkLocktime(locktime uint64) error {
